@@ -1,6 +1,8 @@
 package harbor
 
 import (
+	sdk "github.com/cosmos/cosmos-sdk/types"
+
 	"bufio"
 	"crypto/sha256"
 	"encoding/hex"
@@ -17,7 +19,8 @@ func fr(n, d int64) Frac { return Frac{n, d} }
 
 // configs: the configuration axis of C02/C03 (fee settings x decimal scales), cycled by run number.
 func configFor(k int, rng *sim.Rng) Config {
-	decs := [][4]int64{{1, 1, 1, 1}, {1, 1, 10, 1}, {10, 1, 1, 10}, {1, 10, 10, 100}, {10, 1, 100, 10}, {1, 1, 1, 10}}
+	// (collateral CMDX, collateral ATOM, debt, stable-in); both directions of differing scales for each collateral/debt pair
+	decs := [][4]int64{{1, 1, 1, 1}, {1, 1, 10, 1}, {10, 1, 1, 10}, {1, 10, 10, 100}, {10, 1, 100, 10}, {1, 1, 1, 10}, {1, 10, 1, 10}, {10, 100, 10, 1}}
 	draws := []Frac{fr(0, 1), fr(1, 10), fr(1, 100), fr(1, 4)}
 	closes := []Frac{fr(0, 1), fr(1, 20), fr(0, 1)}
 	stabs := []Frac{fr(0, 1), fr(0, 1), fr(1, 2), fr(9, 10)}
@@ -25,6 +28,11 @@ func configFor(k int, rng *sim.Rng) Config {
 	c := Config{DecC: d[0], DecA: d[1], DecS: d[2], DecU: d[3], DrawFee: draws[(k/2)%len(draws)], CloseFee: closes[(k/3)%len(closes)],
 		StabFee: stabs[k%len(stabs)], Batch: uint64(1 + rng.Intn(3)), Duration: uint64([]int{10, 60, 7, 3600}[rng.Intn(4)]),
 		Users: []string{"u1", "u2", "u3"}, FundColl: 20000, FundDebt: 3000, Bonus: []Frac{fr(0, 1), fr(1, 20), fr(1, 10)}[k%3]}
+	// first generation: own batch size and duration (durations whose time-to-zero-price is not a whole number of seconds included), buffer and cusp
+	c.BatchV1 = uint64(1 + rng.Intn(3))
+	c.DurationV1 = uint64([]int{10, 60, 7, 300}[rng.Intn(4)])
+	c.BufferV1 = []Frac{fr(6, 5), fr(3, 2), fr(1, 1)}[k%3]
+	c.CuspV1 = []Frac{fr(7, 10), fr(3, 5), fr(1, 2)}[(k/2)%3]
 	c.Interest = c.StabFee.Num > 0
 	return c
 }
@@ -80,8 +88,31 @@ func (w *World) randomAct(rng *sim.Rng) Act {
 	vs := w.vaultsView()
 	jit := func(x int64) int64 { return clampPos(x + int64(rng.Intn(3)) - 1) }
 	small := []int64{0, 1, 2, 3, 5, 7, 10, 13, 20, 50}
-	weights := []int{16, 6, 8, 10, 8, 4, 4, 3, 3, 3, 3, 5, 10, 6, 12, 1, 2, 2}
-	names := []string{"Create", "Deposit", "Withdraw", "Draw", "Repay", "Close", "DepositDraw", "SCreate", "SDeposit", "SWithdraw", "InterestCalc", "Liquidate", "Bid", "Price", "Block", "Breaker", "Reserve", "LiqExt"}
+	// ordinary runs keep the second generation in front (the first generation gets its own biased runs below)
+	weights := []int{16, 6, 8, 10, 8, 4, 4, 3, 3, 3, 3, 6, 18, 6, 12, 1, 2, 3, 2, 4, 1, 2}
+	if w.V1Bias { // runs in which the first generation does most of the liquidating (fewer blocks = fewer V2 sweeps)
+		weights = []int{16, 6, 8, 10, 8, 4, 4, 3, 3, 3, 3, 1, 4, 8, 6, 1, 1, 1, 14, 20, 8, 10}
+	}
+	names := []string{"Create", "Deposit", "Withdraw", "Draw", "Repay", "Close", "DepositDraw", "SCreate", "SDeposit", "SWithdraw", "InterestCalc", "Liquidate", "Bid", "Price", "Block", "Breaker", "Reserve", "LiqExt",
+		"V1Liquidate", "V1Bid", "V1Sweep", "V1Tick"}
+	if w.Esm { // emergency shutdown: rare in ordinary runs, headed for in EsmBias runs; once executed, blocks / V1 ticks / redemptions / cool-off withdrawals dominate
+		names = append(names, "EsmDeposit", "EsmExecute", "EsmRedeem")
+		es, found := w.App.EsmKeeper.GetESMStatus(w.Ctx, w.App1)
+		switch {
+		case found && es.Status:
+			for i := range weights {
+				if weights[i] > 2 {
+					weights[i] /= 2
+				}
+			}
+			weights[14], weights[21], weights[2] = 24, 10, 8 // Block, V1Tick, Withdraw
+			weights = append(weights, 1, 1, 14)
+		case w.EsmBias:
+			weights = append(weights, 6, 5, 1)
+		default:
+			weights = append(weights, 1, 1, 0)
+		}
+	}
 	a := Act{A: names[rng.Weighted(weights)], U: u}
 	pickVault := func(own bool) (vaultView, bool) {
 		var c []vaultView
@@ -201,6 +232,68 @@ func (w *World) randomAct(rng *sim.Rng) Act {
 		if rng.Intn(20) == 0 {
 			a.D = "ucm"
 		}
+	case "V1Liquidate":
+		if len(vs) == 0 {
+			return w.randomAct(rng)
+		}
+		a.V = vs[rng.Intn(len(vs))].id
+		if rng.Intn(4) != 0 { // mostly aim at a vault that is currently under its minimum ratio, if there is one
+			var bad []vaultView
+			for _, v := range vs {
+				if p := w.Prod(v.prod); p != nil && w.maxDebt(p, v.in) < v.out+v.int+v.cls {
+					bad = append(bad, v)
+				}
+			}
+			if len(bad) > 0 {
+				a.V = bad[rng.Intn(len(bad))].id
+			}
+		}
+	case "V1Bid":
+		aucs := w.App.AuctionKeeper.GetDutchAuctions(w.Ctx, w.App1)
+		if len(aucs) == 0 {
+			return w.randomAct(rng)
+		}
+		au := aucs[rng.Intn(len(aucs))]
+		a.V = au.AuctionId
+		a.D = au.OutflowTokenCurrentAmount.Denom
+		left := i64(au.OutflowTokenCurrentAmount.Amount)
+		tab := i64(au.InflowTokenTargetAmount.Amount) - i64(au.InflowTokenCurrentAmount.Amount)
+		// collateral amount whose price is about the remaining target (the target-reached boundary)
+		edge := int64(0)
+		if au.OutflowTokenCurrentPrice.IsPositive() {
+			edge = sdk.NewDec(tab).Mul(au.InflowTokenCurrentPrice).MulInt64(w.Decs[a.D]).QuoInt64(w.Decs[au.InflowTokenTargetAmount.Denom]).Quo(au.OutflowTokenCurrentPrice).TruncateInt64()
+		}
+		switch rng.Intn(8) {
+		case 0:
+			a.X = 1
+		case 1:
+			a.X = left
+		case 2:
+			a.X = left + 1
+		case 3:
+			a.X = clampPos(left - 1)
+		case 4:
+			a.X = left / 2
+		case 5:
+			a.X = jit(edge)
+		case 6:
+			a.X = edge / 2
+		default:
+			a.X = small[rng.Intn(len(small))]
+		}
+		if rng.Intn(25) == 0 {
+			a.D = "ust"
+		}
+	case "V1Sweep", "V1Tick":
+		a.U = ""
+	case "EsmDeposit":
+		a.X = []int64{10, 25, 50, 60, 1}[rng.Intn(5)]
+	case "EsmRedeem":
+		a.D = "ust"
+		a.X = []int64{1, 2, 5, 10, 23, 50, 1000}[rng.Intn(7)]
+		if rng.Intn(15) == 0 {
+			a.D = "ucm"
+		}
 	case "Price":
 		a.U = ""
 		a.D = []string{"ucm", "uat", "ust", "uus", "ucm", "uat"}[rng.Intn(6)]
@@ -212,6 +305,20 @@ func (w *World) randomAct(rng *sim.Rng) Act {
 	case "Block":
 		a.U = ""
 		a.Y = []int64{1, 1, 2, 5, 6, 30, 3600, 86400, 0, 2592000, 31536000}[rng.Intn(11)]
+		if rng.Intn(3) == 0 { // boundary: land exactly on (or one second around) the end time of a live auction of either generation
+			var ends []int64
+			for _, au := range w.App.AuctionKeeper.GetDutchAuctions(w.Ctx, w.App1) {
+				ends = append(ends, au.EndTime.Unix()-w.Ctx.BlockTime().Unix())
+			}
+			for _, au := range w.App.NewaucKeeper.GetAuctions(w.Ctx) {
+				ends = append(ends, au.EndTime.Unix()-w.Ctx.BlockTime().Unix())
+			}
+			if len(ends) > 0 {
+				if d := ends[rng.Intn(len(ends))] + int64(rng.Intn(3)) - 1; d >= 0 {
+					a.Y = d
+				}
+			}
+		}
 	case "Breaker":
 		a.U = ""
 		a.On = rng.Intn(3) == 0
@@ -234,8 +341,9 @@ func digestOf(st map[string]interface{}) string {
 
 func rootNode(lg *sim.Log, w *World, run string) int {
 	st := w.Project()
+	w.last = st
 	id := len(lg.Nodes) + 1
-	return lg.Add(0, run, "Init", Act{}.Args(), Res{OK: true}, map[string]interface{}{"s": st, "cfg": w.ConfigJSON(), "root": id})
+	return lg.Add(0, run, "Init", Act{}.Args(), Res{OK: true}, map[string]interface{}{"s": st, "cfg": w.ConfigJSON(), "root": id, "ev": w.labels(st, st, Act{A: "Init"})})
 }
 
 // Main: vh harbor --mode drive|explore --seed S --runs R --steps K --out log.ndjson
@@ -251,6 +359,7 @@ func Main(args []string) int {
 	actsFile := fs.String("acts", "", "file with the action-instance set printed by MC_Harbor (T line); default: built-in set")
 	sweepFile := fs.String("sweep", "", "file with behaviours of MC_Sweep (T lines) to replay on real vaults")
 	sweepMax := fs.Int("sweepmax", 40, "max behaviours replayed from the sweep file")
+	esm := fs.Bool("esm", false, "include the emergency-shutdown exploration and ESM driver actions")
 	fs.Parse(args)
 	lg := &sim.Log{}
 	rng := sim.NewRng(*seed)
@@ -267,13 +376,16 @@ func Main(args []string) int {
 	for r := 0; r < *runs; r++ {
 		cfg := configFor(r+int(*seed), rng)
 		w := Setup(cfg)
+		w.V1Bias = r%4 == 1
+		w.Esm = *esm
+		w.EsmBias = *esm && r%6 == 5
 		run := fmt.Sprintf("drive:%d:%d", *seed, r)
 		par := rootNode(lg, w, run)
 		root := par
 		for k := 0; k < *steps; k++ {
 			a := w.randomAct(rng)
 			rs := w.Do(a)
-			par = lg.Add(par, run, a.A, a.Args(), rs, map[string]interface{}{"s": w.Project(), "root": root})
+			par, _ = w.Record(lg, par, run, root, a, rs)
 			if rs.Panic && a.A == "Block" {
 				break // chain halted
 			}
@@ -283,6 +395,13 @@ func Main(args []string) int {
 		if err := explore(lg, rng, *seed, *depth, *maxNodes, *actsFile); err != nil {
 			fmt.Fprintln(os.Stderr, err)
 			return 2
+		}
+	}
+	if *depth > 0 {
+		exploreV1(lg, *seed, *depth+1, *maxNodes/2)
+		if *esm {
+			exploreEsm(lg, *seed, *depth+3, *maxNodes/3, true)
+			exploreEsm(lg, *seed, *depth+3, *maxNodes/3, false)
 		}
 	}
 	if *sweepFile != "" {
@@ -368,6 +487,7 @@ func explore(lg *sim.Log, rng *sim.Rng, seed int64, depth, maxNodes int, actsFil
 		{A: "Draw", U: "u2", P: p1, V: 1, X: 1}, {A: "DepositDraw", U: "u1", P: p1, V: 1, X: 6},
 		{A: "SCreate", U: "u2", P: p3, X: 20}, {A: "SDeposit", U: "u1", P: p3, V: 1, X: 30}, {A: "SWithdraw", U: "u2", P: p3, V: 1, X: 2},
 		{A: "Price", D: "ucm", Y: 1, On: true}, {A: "Price", D: "ucm", Y: 2, On: true}, {A: "Price", D: "ucm", Y: 2, On: false},
+		{A: "V1Liquidate", U: "u2", P: p1, V: 1}, {A: "V1Liquidate", U: "u1", P: p1, V: 2},
 	}
 	if actsFile != "" {
 		ma, err := modelActs(actsFile)
@@ -377,7 +497,8 @@ func explore(lg *sim.Log, rng *sim.Rng, seed int64, depth, maxNodes int, actsFil
 		acts = ma
 	}
 	// beyond the vault model: block hooks, liquidation and bids are explored on the same branches (monitored, Conf_Block)
-	acts = append(acts, Act{A: "Block", Y: 5}, Act{A: "Liquidate", U: "u2", V: 1}, Act{A: "Bid", U: "u2", V: 1, D: "ust", X: 20}, Act{A: "Bid", U: "u1", V: 1, D: "ust", X: 100})
+	acts = append(acts, Act{A: "Block", Y: 5}, Act{A: "Liquidate", U: "u2", V: 1}, Act{A: "Bid", U: "u2", V: 1, D: "ust", X: 20}, Act{A: "Bid", U: "u1", V: 1, D: "ust", X: 100},
+		Act{A: "V1Bid", U: "u2", V: 1, D: "ucm", X: 10}, Act{A: "V1Sweep"}, Act{A: "V1Tick"})
 	seen := map[string]bool{digestOf(w0.Project()): true}
 	type item struct {
 		w    *World
@@ -398,8 +519,7 @@ func explore(lg *sim.Log, rng *sim.Rng, seed int64, depth, maxNodes int, actsFil
 			}
 			c := it.w.Fork()
 			rs := c.Do(a)
-			st := c.Project()
-			id := lg.Add(it.node, run, a.A, a.Args(), rs, map[string]interface{}{"s": st, "root": root})
+			id, st := c.Record(lg, it.node, run, root, a, rs)
 			dg := digestOf(st)
 			if !seen[dg] {
 				seen[dg] = true
@@ -409,4 +529,127 @@ func explore(lg *sim.Log, rng *sim.Rng, seed int64, depth, maxNodes int, actsFil
 	}
 	_ = rng
 	return nil
+}
+
+// exploreV1: bounded breadth-first exploration of the first-generation liquidation and Dutch auction actions on the real
+// code, from a prepared state (two vaults at their minimum ratio, then the collateral price halves): every sequence of the
+// action instances below up to `depth`, de-duplicated by the digest of the projected state, on CacheContext branches.
+func exploreV1(lg *sim.Log, seed int64, depth, maxNodes int) {
+	w0 := Setup(exploreConfig())
+	run := fmt.Sprintf("explorev1:%d", seed)
+	root := rootNode(lg, w0, run)
+	p1 := w0.Prods[0].ID
+	par := root
+	for _, a := range []Act{{A: "Create", U: "u1", P: p1, X: 30, Y: 40}, {A: "Create", U: "u2", P: p1, X: 15, Y: 20}, {A: "Price", D: "ucm", Y: 1, On: true}} {
+		rs := w0.Do(a)
+		par, _ = w0.Record(lg, par, run, root, a, rs)
+	}
+	acts := []Act{
+		{A: "V1Liquidate", U: "u2", V: 1}, {A: "V1Liquidate", U: "u1", V: 2}, {A: "V1Sweep"}, {A: "V1Tick"},
+		{A: "V1Bid", U: "u2", V: 1, D: "ucm", X: 10}, {A: "V1Bid", U: "u2", V: 1, D: "ucm", X: 30}, {A: "V1Bid", U: "u1", V: 1, D: "ucm", X: 5},
+		{A: "V1Bid", U: "u1", V: 2, D: "ucm", X: 15}, {A: "V1Bid", U: "u2", V: 2, D: "ucm", X: 14},
+		{A: "Block", Y: 5}, {A: "Block", Y: 10}, {A: "Price", D: "ucm", Y: 2, On: true}, {A: "Price", D: "ucm", Y: 1, On: false},
+		{A: "Deposit", U: "u1", P: p1, V: 1, X: 40}, {A: "Breaker", On: true},
+	}
+	seen := map[string]bool{digestOf(w0.Project()): true}
+	type item struct {
+		w    *World
+		node int
+		d    int
+	}
+	queue := []item{{w0, par, 0}}
+	maxNodes += len(lg.Nodes)
+	for len(queue) > 0 && len(lg.Nodes) < maxNodes {
+		it := queue[0]
+		queue = queue[1:]
+		if it.d >= depth {
+			continue
+		}
+		for _, a := range acts {
+			if len(lg.Nodes) >= maxNodes {
+				break
+			}
+			c := it.w.Fork()
+			rs := c.Do(a)
+			id, st := c.Record(lg, it.node, run, root, a, rs)
+			if dg := digestOf(st); !seen[dg] {
+				seen[dg] = true
+				queue = append(queue, item{c, id, it.d + 1})
+			}
+		}
+	}
+}
+
+// bfs explores all sequences of `acts` up to `depth` from (w0, node par) on CacheContext branches, de-duplicated by the digest
+// of the projected state, within a node budget.
+func bfs(lg *sim.Log, run string, root, par int, w0 *World, acts []Act, depth, maxNodes int) {
+	seen := map[string]bool{digestOf(w0.Project()): true}
+	type item struct {
+		w    *World
+		node int
+		d    int
+	}
+	queue := []item{{w0, par, 0}}
+	maxNodes += len(lg.Nodes)
+	for len(queue) > 0 && len(lg.Nodes) < maxNodes {
+		it := queue[0]
+		queue = queue[1:]
+		if it.d >= depth {
+			continue
+		}
+		for _, a := range acts {
+			if len(lg.Nodes) >= maxNodes {
+				break
+			}
+			c := it.w.Fork()
+			rs := c.Do(a)
+			id, st := c.Record(lg, it.node, run, root, a, rs)
+			if dg := digestOf(st); !seen[dg] {
+				seen[dg] = true
+				queue = append(queue, item{c, id, it.d + 1})
+			}
+		}
+	}
+}
+
+// exploreEsm: bounded exploration of the emergency-shutdown flows of the CDP app on the real code. Prepared state: one vault
+// seized by the first generation (V1 auction with a partial bid), one seized by the second generation (V2 auction with a
+// partial bid), one healthy vault, one stable-mint vault, and the ESM deposit target reached. Then every sequence of the
+// action instances below (execute, blocks before / after the cool-off end, V1 price update, withdraw in the cool-off,
+// redemption, late bids) up to `depth`.
+func exploreEsm(lg *sim.Log, seed int64, depth, maxNodes int, withStable bool) {
+	cfg := exploreConfig()
+	run := fmt.Sprintf("exploreesm:%d", seed)
+	if !withStable { // second variant: no stable-mint vault (the shutdown stages are then free of KF-C01-ESM-1), vaults carry a closing fee
+		run = fmt.Sprintf("exploreesmb:%d", seed)
+		cfg.CloseFee = fr(1, 20)
+	}
+	w0 := Setup(cfg)
+	p4 := w0.Prods[3].ID
+	root := rootNode(lg, w0, run)
+	p1, p2, p3 := w0.Prods[0].ID, w0.Prods[1].ID, w0.Prods[2].ID
+	par := root
+	for _, a := range []Act{
+		{A: "Create", U: "u1", P: p1, X: 30, Y: 40}, {A: "Create", U: "u2", P: p1, X: 15, Y: 20}, {A: "Create", U: "u1", P: p2, X: 20, Y: 30},
+		{A: "Create", U: "u2", P: p2, X: 40, Y: 30}, {A: "Create", U: "u1", P: p4, X: 60, Y: 20}, // two healthy vaults for the redemption set-up
+		{A: "SCreate", U: "u2", P: p3, X: 20},
+		{A: "Price", D: "ucm", Y: 1, On: true}, {A: "Price", D: "uat", Y: 2, On: true},
+		{A: "V1Liquidate", U: "u2", V: 1}, {A: "Liquidate", U: "u1", V: 2}, {A: "V1Liquidate", U: "u2", V: 3},
+		// V1 auction 1 stays below the principal (close-out re-opens the vault), V1 auction 2 collects more than the principal but less than the target (close-out hands the rest to the esm account)
+		{A: "V1Bid", U: "u2", V: 1, D: "ucm", X: 10}, {A: "Bid", U: "u1", V: 1, D: "ust", X: 5}, {A: "V1Bid", U: "u2", V: 2, D: "uat", X: 13},
+		{A: "EsmDeposit", U: "u1", X: 50},
+	} {
+		if a.A == "SCreate" && !withStable {
+			continue
+		}
+		rs := w0.Do(a)
+		par, _ = w0.Record(lg, par, run, root, a, rs)
+	}
+	acts := []Act{
+		{A: "EsmExecute", U: "u1"}, {A: "Block", Y: 5}, {A: "Block", Y: 30}, {A: "V1Tick"},
+		{A: "Withdraw", U: "u2", P: p2, V: 4, X: 2}, {A: "EsmRedeem", U: "u2", X: 10}, {A: "EsmRedeem", U: "u1", X: 1000},
+		{A: "V1Bid", U: "u2", V: 1, D: "ucm", X: 20}, {A: "Bid", U: "u2", V: 1, D: "ust", X: 100},
+		{A: "Deposit", U: "u2", P: p2, V: 4, X: 5}, {A: "V1Liquidate", U: "u1", V: 4}, {A: "Price", D: "uat", Y: 1, On: true},
+	}
+	bfs(lg, run, root, par, w0, acts, depth, maxNodes)
 }
